@@ -120,12 +120,21 @@ func (e *Engine) exec(st *State, fr *Frame, instr ssa.Instruction) []*State {
 				break
 			}
 			// a row of a small constant table: one state per row
-			if sl, isTab := e.closedContainer(s.Ptr.Key); isTab && ok && len(sl.Elems) <= smallTable {
-				if k, isK := e.constIndex(st, idx, len(sl.Elems)); isK {
+			rowsN, isTab := 0, false
+			if sl, isClosed := e.closedContainer(s.Ptr.Key); isClosed && len(sl.Elems) <= smallTable {
+				rowsN, isTab = len(sl.Elems), true
+			} else if ld, isLd := x.X.(*ssa.UnOp); isLd {
+				// a copy of a local table literal
+				if al, isAl := ld.X.(*ssa.Alloc); isAl {
+					rowsN, isTab = e.localTable(al)
+				}
+			}
+			if isTab && ok {
+				if k, isK := e.constIndex(st, idx, rowsN); isK {
 					idx = K(k)
 				} else {
 					var out []*State
-					for k := 0; k < len(sl.Elems); k++ {
+					for k := 0; k < rowsN; k++ {
 						s2 := st.clone()
 						s2.addEQ(idx, K(int64(k)))
 						if !e.feasible(s2) {
